@@ -50,6 +50,18 @@ func TestVerifFPTable(t *testing.T) {
 			fmt.Printf("VERIF-FP bin 3 %d %d %d\n", i, j, fpClass(x/y))
 		}
 	}
+	xs := []float64{math.NaN(), math.Inf(1), math.Inf(-1), 0, negz, 1, -1, 2.5, -2.5, 0.5, -0.5}
+	ys := []float64{math.NaN(), math.Inf(1), math.Inf(-1), 0, negz, 1, -1, 3, -3, 2, -2, 0.5, -0.5}
+	for i, x := range xs {
+		for j, y := range ys {
+			r := math.Pow(x, y)
+			c := fpClass(r)
+			if c == 5 && fpSmallInt(r) == 99 {
+				c = 6
+			}
+			fmt.Printf("VERIF-FP pow %d %d %d %d\n", i, j, c, fpSmallInt(r))
+		}
+	}
 	fns := []func(float64) float64{math.Sqrt, math.Cbrt, math.Exp, math.Exp2, func(x float64) float64 { return math.Pow(10, x) }, math.Expm1, math.Log, math.Log2, math.Log10, math.Log1p}
 	for k, f := range fns {
 		for i, x := range reps {
